@@ -187,6 +187,10 @@ fn builtin_get(args: Vec<Rc<Object>>) -> Result<Rc<Object>, String> {
             }
         }
         Object::Map(map) => {
+            // NaN is a float, which is a key kind, but it equals no key
+            if matches!(args[1].as_ref(), Object::Float(f) if f.is_nan()) {
+                return Ok(Rc::new(Object::Null));
+            }
             if !args[1].is_a_valid_key() {
                 return Err(format!("not a valid key: {}", args[1]));
             }
@@ -204,6 +208,10 @@ fn builtin_contains(args: Vec<Rc<Object>>) -> Result<Rc<Object>, String> {
     match args[0].as_ref() {
         Object::Map(map) => {
             let key = args[1].clone();
+            // NaN is a float, which is a key kind, but it equals no key
+            if matches!(key.as_ref(), Object::Float(f) if f.is_nan()) {
+                return Ok(Rc::new(Object::Bool(false)));
+            }
             if !key.is_a_valid_key() {
                 return Err(format!("not a valid key: {}", key));
             }
